@@ -60,6 +60,11 @@ CLAIMED = {
    note="Trusted: token/value projection. Decimals must read as one of the two binary32 neighbours. Spellings outside the supported grammar are Unsupported (only C07 applies). One known finding (boolean literal followed by a non-delimiter, pinned by the test suite).",
    technique="TLA+ lexer/reader specification, TLC law checking, TLC trace validation of the real lexer and reader on exhaustive short texts and random trees",
    ref="DESIGN.md section 5, C06"),
+ "C16": dict(
+   text="Printer.tla defines the external representation (single spaces, dotted tail only when improper) over the Reader's data; TLC checks Read(Print(v)) = v (hence injectivity) for every value tree of a bounded universe (15 atoms incl. boundary integers, ratios of both signs, characters, peculiar symbols; depth <= 2). Every value is built in the real interpreter, display's text is compared with Print(v) and read back. Random value trees (depth <= 5, width <= 6) over boundary integers, ratios produced by arithmetic, every binary32 class (random bit patterns, subnormals, powers of ten) are printed and read back by the implementation, and PrinterTrace.tla checks: the specification's reader maps the text to the value (reals: faithfully rounded), the value read back equals the original including exactness, the layout rules, dotted tails exactly where improper, and injectivity.",
+   note="Trusted: value projection, format!(\"{}\") as what display writes. Strings, non-finite reals and symbols needing bars are excluded by the property.",
+   technique="TLA+ printer/reader specification with round-trip law checked by TLC, replay, TLC trace validation of the real printer and reader",
+   ref="DESIGN.md section 5, C16"),
 }
 PENDING_REASON = "no check is registered for this property yet: the specification module and binding for it are still being built (see DESIGN.md section 10); nothing is claimed"
 
